@@ -7,7 +7,7 @@ executed at most once.  Independence from earlier jobs is checked by replaying
 explored histories in fresh processes (state keys and job statuses must be
 identical step by step)."""
 from ..sysmc import check
-from ..sysmc.drivers import BYPASS_REVIEW
+from ..sysmc.drivers import BYPASS_REVIEW, conflict_init
 from ..sysmc.world import AUTHOR, PEER1
 
 PROP = 'C10'
@@ -44,6 +44,16 @@ def backport_spec(queue, depth):
                 approvers=[PEER1], init=init, statuses_q=['SUCCESSFUL'])
 
 
+def conflict_spec(queue, depth):
+    """Conflict reports must not be repeated either, and the evaluation
+    after a manual resolution must converge."""
+    return spec('c10-conflict-%s-D3' % ('q' if queue else 'noq'), 'D3', [],
+                queue=queue, depth=depth, resolve=True,
+                options=BYPASS_REVIEW + ['bypass_build_status'],
+                init=conflict_init(), statuses_int=[],
+                statuses_q=['SUCCESSFUL'])
+
+
 def specs(tier):
     cmds = [[AUTHOR, '@robot reset', 2], [AUTHOR, '@robot help', 1],
             [PEER1, '@robot bypass_peer_approval', 1],
@@ -61,10 +71,12 @@ def specs(tier):
              statuses_int=['SUCCESSFUL', 'FAILED'], decline=True,
              eval_int_commits=True),
         backport_spec(True, 2 if tier == 'quick' else 4),
+        conflict_spec(False, 4 if tier == 'quick' else 7),
     ]
     if tier == 'thorough':
         out += [
             backport_spec(False, 4),
+            conflict_spec(True, 7),
             spec('c10-two-prs-q-S3', 'S3',
                  [(PR1, 'stabilization/4.3.18'), (PR2, 'development/4.3')],
                  queue=True, depth=7, eval_int_commits=True,
